@@ -19,7 +19,7 @@ Definition dds_name : bytes := bs "dds".
 Definition logmod_name : bytes := bs "vlogmod".   (* x<i> = vlogmod.apply(g) *)
 Definition xname (i : nat) : bytes := bs "x" ++ dec_nat i.
 
-Definition mem (x : bytes) (l : list bytes) : bool := existsb (bytes_eqb x) l.
+Definition name_in (x : bytes) (l : list bytes) : bool := existsb (bytes_eqb x) l.
 
 (* ---- Python's order on str (code points = bytes of the UTF-8 encoding), on pairs of str ---- *)
 Fixpoint bytes_cmp (a b : bytes) : comparison :=
@@ -56,7 +56,7 @@ End Sort.
 Fixpoint dedup_names {B} (seen : list bytes) (l : list (bytes * B)) : list (bytes * B) :=
   match l with
   | [] => []
-  | (n, x) :: r => if mem n seen then dedup_names seen r else (n, x) :: dedup_names (n :: seen) r
+  | (n, x) :: r => if name_in n seen then dedup_names seen r else (n, x) :: dedup_names (n :: seen) r
   end.
 
 Fixpoint index_of (n : bytes) (l : list bytes) : nat :=
@@ -128,12 +128,12 @@ Section Steps.
     | MCall line sp g args => ([SCall line line (rec g) (map expr_of args)], sp_head sp :: seen)
     | MApply line sp g =>
       let seen := logmod_name :: seen in                           (* Call vlogmod.apply: head marked, then the argument *)
-      if mem (sp_head sp) seen then ([SApply (rec g)], seen)
+      if name_in (sp_head sp) seen then ([SApply (rec g)], seen)
       else ([SRef line (rec g) true], sp_head sp :: seen)
     | MKeep line eline rl path sp g pos kw =>
       let seen := dds_name :: seen in                              (* Call dds.keep: head marked, then the arguments *)
       let k := SKeep line eline path (rec g) (pos_of pos) (kw_of kw) in
-      if mem (sp_head sp) seen then ([k], seen)
+      if name_in (sp_head sp) seen then ([k], seen)
       else ([k; SRef rl (rec g) false], sp_head sp :: seen)
     end.
 
